@@ -8,7 +8,7 @@
      to_entry   : L.fnsel -> S.entry (Exec with the harness's two buffers), kind_entry : RunCmd -> Run, OutCmd -> Output
      S_of_op    : a call operation of an L history, in its heap / closure list / environment -> the S.call that it is;
                   the args list S receives is the caller's ORIGINAL elements, for a closure baked ++ call-time
-     L_out/L_exit : S's child (argv, envp) -> L's two child parameters (environment at the call, argv), for a child that ignores its environment
+     L_out/L_exit : S's child (argv, envp) -> L's two child parameters (environment at the call, env map of the call, argv), for a child that ignores its environment
      obs_of_call : S.call -> L.obs. *)
 From Mage Require Import Base.Strs Base.Expand.
 From Mage Require Import Proof.Bridge_C16_C15.
@@ -23,8 +23,8 @@ Theorem Compose_expansion_agree : forall emap e,
 Proof. exact (fun emap e => conj (mapping_agree emap e) (conj (expansion_agree emap e) (conj (snapshot_getenv e) (snapshot_nodup e)))). Qed.
 
 Section W.
-Variable child_out : list (string * string) -> list string -> string.
-Variable child_exit : list (string * string) -> list string -> nat.
+Variable child_out : list (string * string) -> list (string * string) -> list string -> string.
+Variable child_exit : list (string * string) -> list (string * string) -> list string -> nat.
 Variable h0 : L.heap.
 Variable cls0 : list L.closure.
 Hypothesis closures_in_heap : LF.cls_ok h0 cls0.
